@@ -553,3 +553,11 @@ MUTANTS += [
  {"id": "c13-blockdiag-keeps-off-diagonal", "prop": "C13", "file": _EC, "old": "            else:  # off diagonal block\n                bl_diag = 0", "new": "            else:  # off diagonal block\n                bl_diag = self.sympy"},
  {"id": "c13-blockdiag-any-tensor", "prop": "C13", "file": _EC, "old": "        if self.name == tensor_names.fock:\n            space = self.space\n            assert len(space) == 2", "new": "        if len(self.space) == 2:\n            space = self.space\n            assert len(space) == 2"},
 ]
+MUTANTS += [
+ {"id": "c07-group-matched-not-recorded", "prop": "C07", "file": _SI, "old": "                    compatible_terms[term_i][other_term_i] = sub\n                    matched.add(other_term_i)", "new": "                    compatible_terms[term_i][other_term_i] = sub"},
+]
+# (equivalent mutant: the index patterns of Term.pattern() already carry the target index names, different
+#  target indices never have equal patterns)
+HARMLESS += [
+ {"id": "h-c07-group-target-filter-redundant", "prop": "C07", "file": _SI, "old": "                    if is_target != other_is_target or \\\n                            (is_target and other_is_target and\n                             idx is not other_idx):\n                        continue", "new": "                    if is_target != other_is_target:\n                        continue"},
+]
